@@ -1,6 +1,6 @@
 (* Property C12 — swap quotes equal execution. Statements only; proofs in Proofs/SwapProofs.v, Proofs/ReverseProofs.v. *)
-From MD.Model Require Import Base Ownable Epoch PoolMath Types PoolManager.
-From MD.Proofs Require Import PoolMathProofs SwapProofs.
+From MD.Model Require Import Base Ownable Epoch PoolMath Types PoolManager FarmManager Chain.
+From MD.Proofs Require Import PoolMathProofs BankProofs SwapProofs ChainProofs TxBalances.
 
 (* In any state: if a Swap executes, the Simulation query in that state returns exactly the computation the
    swap used: same return amount and the same four fee amounts ... *)
@@ -24,5 +24,42 @@ Theorem C12_simulate_operations_eq_execute : forall w sender funds ops mr receiv
              else [plain (MBankSend (addr_or_default w receiver sender) [(so_out lst, amount_of out)])]) ++ fee_msgs)%list.
 Proof. exact simulate_swap_operations_eq_execute. Qed.
 
+(* AT TRANSACTION LEVEL (funds transfer, handler, every message it emits): the Simulation on the state before a swap
+   transaction quotes exactly what the receiver's balance gains, what the fee collector gains and what leaves the pool
+   manager; no other balance changes *)
+Theorem C12_quote_is_what_the_swap_transaction_pays : forall w sender funds ask bp ms r pid w',
+  run_tx w sender PM (WPm (PmSwap ask bp ms r pid)) funds = Ok w' ->
+  exists offer sc,
+    one_coin funds = Ok offer /\ query_simulation (w_pm w) offer ask pid = Ok sc /\
+    let recv := addr_or_default w r sender in
+    let fc := pm_fee_collector (pm_cfg (w_pm w)) in
+    forall a d,
+      bal (w_bank w') a d = bal (w_bank w) a d
+        - ind (String.eqb a sender) (camt funds d) + ind (String.eqb a PM) (camt funds d)
+        - ind (String.eqb a PM) (ind (String.eqb ask d) (sc_return sc + sc_protocol_fee sc + sc_burn_fee sc))
+        + ind (String.eqb a recv) (ind (String.eqb ask d) (sc_return sc))
+        + ind (String.eqb a fc) (ind (String.eqb ask d) (sc_protocol_fee sc)).
+Proof. exact swap_tx_balances. Qed.
+
+(* ... and SimulateSwapOperations on the state before a route transaction (each pool visited at most once) quotes exactly
+   what the receiver is sent in the route's final denom; besides that only the hops' protocol-fee transfers and burns
+   (fee_msgs, all bank messages of the pool manager) take effect *)
+Theorem C12_route_quote_is_what_the_route_transaction_pays : forall w sender funds ops mr r ms w',
+  NoDup (map so_pool ops) ->
+  run_tx w sender PM (WPm (PmRoute ops mr r ms)) funds = Ok w' ->
+  exists fst_op lst amount out fee_msgs,
+    hd_error ops = Some fst_op /\ last (map Some ops) None = Some lst /\ must_pay funds (so_in fst_op) = Ok amount /\
+    simulate_swap_operations (w_pm w) amount ops = Ok out /\ (forall m, mr = Some m -> m <= out) /\
+    forallb plain_leaf fee_msgs = true /\
+    forall a d,
+      bal (w_bank w') a d = bal (w_bank w) a d
+        - ind (String.eqb a sender) (camt funds d) + ind (String.eqb a PM) (camt funds d)
+        - ind (String.eqb a PM) (ind (String.eqb (so_out lst) d) out)
+        + ind (String.eqb a (addr_or_default w r sender)) (ind (String.eqb (so_out lst) d) out)
+        + leaves_eff PM (w_tf_fee w) fee_msgs a d.
+Proof. exact route_tx_balances. Qed.
+
 Print Assumptions C12_simulation_eq_swap.
 Print Assumptions C12_simulate_operations_eq_execute.
+Print Assumptions C12_quote_is_what_the_swap_transaction_pays.
+Print Assumptions C12_route_quote_is_what_the_route_transaction_pays.
